@@ -205,6 +205,7 @@ Arguments sp {G} _.
 Arguments globals {G} _.
 Arguments stack_size {G} _.
 Arguments vm_new {G} _ _.
+Arguments over {G} _ _ _.
 Arguments primed {Module G} _ _ _ _.
 Arguments base {Module} _ _.
 Arguments NewVM {Module Entry Args} _ _.
